@@ -735,6 +735,21 @@ func (v *MaryTransactionOutputValue) UnmarshalCBOR(data []byte) error {
 	if _, err := cbor.Decode(data, &tmp); err != nil {
 		return err
 	}
+	// Output quantities are Word64 in the ledger (CDDL: positive_coin =
+	// 1 .. 2^64-1): reject negative and oversized quantities here, no
+	// validation rule looks at them later.
+	if tmp.Assets != nil {
+		for _, policy := range tmp.Assets.Policies() {
+			for _, name := range tmp.Assets.Assets(policy) {
+				qty := tmp.Assets.Asset(policy, name)
+				if qty != nil && (qty.Sign() < 0 || !qty.IsUint64()) {
+					return errors.New(
+						"transaction output asset quantity out of range",
+					)
+				}
+			}
+		}
+	}
 	*v = MaryTransactionOutputValue(tmp)
 	return nil
 }
